@@ -184,6 +184,8 @@ def parseItem (s : String) : Option SeqItem :=
   match s.splitOn "~" with
   | ["d", sc, c] => do pure (.decl (← sc.toNat?) (← parseTCand c))
   | ["r", id] => id.toNat?.map .define
+  | ["r", id, nd] => do pure (.redecl (← id.toNat?) (← nd.toNat?))
+  | ["p", id, nd] => do pure (.redecl (← id.toNat?) (← nd.toNat?))
   | ["c", m, az, ts] => do
     let x ← if ts.isEmpty then some [] else sequenceOpt ((ts.splitOn "+").map parseTArg)
     pure (.site (← m.toNat?) x (← parseArgs az))
